@@ -254,6 +254,7 @@ fn structured_case(st: &mut Stats, rng: &mut Rng, class: &str, ar: DM<Rat>, ac: 
             if k <= KMAX {
                 let bf: Vec<f64> = br.iter().map(|v| v.to_f64()).collect();
                 judge_f64(st, class, &af, &bf, &FloatCert { kappa: Some(k) });
+                if rng.chance(0.5) { judge_scaling_f64(st, rng, class, &af, &bf); }
                 let rs: Vec<i32> = (0..n).map(|_| rng.int(-8, 8) as i32).collect();
                 let cs: Vec<i32> = (0..n).map(|_| rng.int(-40, 40) as i32).collect();
                 let ars = DM::<Rat>::from_fn(n, n, |i, j| ar.a[i][j] * pow2_rat(rs[i]));
@@ -289,6 +290,53 @@ fn structured_case(st: &mut Stats, rng: &mut Rng, class: &str, ar: DM<Rat>, ac: 
 
 pub const KMAX: f64 = 1e8;
 pub fn pow2_rat(e: i32) -> Rat { if e >= 0 { Rat::new(1i128 << e, 1) } else { Rat::new(1, 1i128 << (-e)) } }
+
+/// Exact metamorphic check "whatever the magnitudes": scaling A by 2^ea and b by 2^eb (exact in binary floating point,
+/// no pivot choice or rounding changes) must scale the solution by exactly 2^(eb-ea), bit for bit, in both solvers.
+pub fn judge_scaling_f64(st: &mut Stats, rng: &mut Rng, class: &str, a: &Vec<Vec<f64>>, b: &[f64]) {
+    let n = b.len();
+    st.next_case();
+    let ea = rng.int(-300, 300) as i32;
+    let eb = ea + rng.int(-200, 200) as i32;
+    let (sa, sb) = (2f64.powi(ea), 2f64.powi(eb));
+    let asc: Vec<Vec<f64>> = a.iter().map(|r| r.iter().map(|v| v * sa).collect()).collect();
+    let bsc: Vec<f64> = b.iter().map(|v| v * sb).collect();
+    for solver in ["solve_basic", "solve_lu"] {
+        let run = |aa: &Vec<Vec<f64>>, bb: &[f64]| { let mut m = mat_f64(aa); let bv = Vector::create(bb.to_vec()); catch(|| if solver == "solve_basic" { m.solve_basic(&bv) } else { m.solve_lu(&bv) }) };
+        st.eval();
+        if let (Outcome::Ok(x0), o1) = (run(a, b), run(&asc, &bsc)) {
+            if !fl::all_finite(&x0.vec) { continue; }
+            let want: Vec<f64> = x0.vec.iter().map(|v| v * 2f64.powi(eb - ea)).collect();
+            match o1 {
+                Outcome::Ok(x1) => if x1.vec.iter().map(|v| v.to_bits()).ne(want.iter().map(|v| v.to_bits())) {
+                    st.violation(&format!("C01:{}:f64:scale-dependent", solver), format!("A*2^{} x = b*2^{}: {} returned {:?}, the unscaled solution times 2^{} is {:?}; n={} class={} A={:?} b={:?}", ea, eb, solver, x1.vec, eb - ea, want, n, class, a, b));
+                },
+                o => st.violation(&format!("C01:{}:f64:scale-dependent", solver), format!("A*2^{} x = b*2^{}: {} {}; class={} A={:?} b={:?}", ea, eb, solver, o.describe(), class, a, b)),
+            }
+        }
+    }
+    st.count("cases:f64:pow2-global-scaling");
+}
+
+/// Orders beyond 8 (the property has no upper bound on n): pivot-tie "growth traps" (unit diagonal, constant strictly
+/// lower part c with |c| >= 1, ones in the last column: correct partial pivoting exchanges rows and shows no growth)
+/// and random dense systems; certificate from the harness complete-pivoting inverse.
+fn large_case(st: &mut Stats, rng: &mut Rng) {
+    let n = rng.usize(9, 32);
+    let trap = rng.bool();
+    let a: Vec<Vec<f64>> = if trap {
+        let c = *rng.pick(&[-2.0, 2.0, -1.5, -1.0, 1.0, -3.0]);
+        (0..n).map(|i| (0..n).map(|j| if i == j { 1.0 } else if j < i { c } else if j == n - 1 { 1.0 } else { 0.0 }).collect()).collect()
+    } else {
+        (0..n).map(|_| (0..n).map(|_| rng.int(-9, 9) as f64).collect()).collect()
+    };
+    let xs: Vec<f64> = (0..n).map(|_| rng.int(-3, 3) as f64).collect();
+    let b: Vec<f64> = (0..n).map(|i| (0..n).map(|j| a[i][j] * xs[j]).sum()).collect();
+    match cp_cert_real(&a).filter(|k| *k <= KMAX) {
+        Some(k) => { judge_f64(st, if trap { "large-n-pivot-tie-trap" } else { "large-n-dense" }, &a, &b, &FloatCert { kappa: Some(k) }); if rng.chance(0.3) { judge_scaling_f64(st, rng, "large-n", &a, &b); } }
+        None => st.count("skipped:float-certificate-failed"),
+    }
+}
 
 pub fn run(ctx: &Ctx) -> Report {
     // unit layout: [0, NP) permutation sweep units; then random units
@@ -330,8 +378,10 @@ pub fn run(ctx: &Ctx) -> Report {
                     let ar = rand_dense_exact::<Rat>(rng, n, kind);
                     let ac = rand_dense_exact::<CRat>(&mut r2, n, kind);
                     structured_case(st, rng, class, ar, ac);
-                } else {
+                } else if sel < 9 {
                     general_float_case(st, rng, n);
+                } else {
+                    large_case(st, rng);
                 }
             }
         }
@@ -358,7 +408,7 @@ pub fn run(ctx: &Ctx) -> Report {
         stats.merge(st);
     }
     let mut rep = Report::new(stats,
-        "cases: every permutation P of n<=6 (quick) / n<=8 (thorough) rows as A=P*L*U (3 variants: plain, extra zeros, 2^-40 entries), random P for larger n, random dense/sparse-pattern/triangular/permutation-like/zero-diagonal integer matrices, all 3^(n*n) sign/zero patterns for n<=3, exact 2^k row/column scalings, general graded floats; each through Rat, CRat (exact complex), f64 and Complex<f64>. A case is non-trivial when n>=2, the system is certified nonsingular and both solvers were called; distinct = distinct (type,class,A,b) hashes");
+        "cases: every permutation P of n<=6 (quick) / n<=8 (thorough) rows as A=P*L*U (3 variants: plain, extra zeros, 2^-40 entries), random P for larger n, random dense/sparse-pattern/triangular/permutation-like/zero-diagonal integer matrices, all 3^(n*n) sign/zero patterns for n<=3, exact 2^k row/column scalings, global scalings 2^(+-300) of A and b (solution must scale bit-exactly), orders 9..32 (pivot-tie growth traps and random dense, f64), general graded floats; each through Rat, CRat (exact complex), f64 and Complex<f64>. A case is non-trivial when n>=2, the system is certified nonsingular and both solvers were called; distinct = distinct (type,class,A,b) hashes");
     rep.assumptions = vec![
         "float cases are judged only with a conditioning certificate kappa_inf <= 1e8: exact inverse over Rat/CRat of the identical dyadic data (also for the 2^+-8 row-scaled variant; 2^+-40 column scalings do not change pivoting or rounding), or harness complete-pivoting Gauss-Jordan (pivot ratio >= 2^-30) for general floats".into(),
         "f64 backward-error threshold 1024*n*u fixed in harness (measured worst on unchanged tree ~3e-16)".into(),
